@@ -35,8 +35,13 @@ def run(ctx):
                 ctx.violation(f'space construction raised {type(e).__name__}', {'types': tys, 'colors': colors, 'shape': shape})
                 continue
             for kind in rsuite.KINDS:
-                rep = (rsuite.make_state_representation if is_state else rsuite.make_observation_representation)(kind, space)
-                sp = rep.space
+                try:
+                    rep = (rsuite.make_state_representation if is_state else rsuite.make_observation_representation)(kind, space)
+                    sp = rep.space
+                except Exception as e:  # noqa: BLE001
+                    ctx.violation(f'building the `{kind}` representation of a valid space (or reading the space it declares) raised {type(e).__name__}: {e}',
+                                  {'types': tys, 'colors': colors, 'shape': shape, 'kind': kind, 'is_state': is_state, 'declared_with': type(getattr(space, 'object_types', None)).__name__})
+                    continue
                 for _ in range(per):
                     cs = rsuite.member_state(r, tys, colors, shape, is_state)
                     gvdebug.reset_gv_debug(True)
